@@ -102,6 +102,7 @@ fn packet_key(flags: u8) {
     hk::set_tracker_override(Some(record_check_ts));
     let _ = run(&mut table, &p);
     hk::set_tracker_override(None);
+    kani::cover!(unsafe { REC_CALLS } == 1 && sport > 1024 && dport <= 1024, "tracker reached, ephemeral -> well-known port");
     unsafe {
         assert!(REC_CALLS == 1, "C07 one tracker step per timestamped segment");
         assert!(REC_SRC == 0x0a00_0000 | src as u32 && REC_SPORT == sport, "C07 tracking key: the packet's own source address and port");
@@ -148,6 +149,7 @@ fn table_isolation(fc_a: bool, fc_b: bool, same_tuple: bool) {
     assert!(r1.0.is_none() && r1.1.is_none(), "C07 B's first segment reports nothing although A is tracked");
     let want = freq_domain(b1, b2, 600).is_some();
     let mine = if fc_b { r2.0.is_some() } else { r2.1.is_some() };
+    kani::cover!(mine, "B measured while A is tracked");
     assert!(mine == want, "C07 B's estimate depends on B's own segments only");
     let ka = ConnectionKey { connection: ca.clone(), is_client: fc_a };
     match table.get(&ka) {
